@@ -203,7 +203,10 @@ func TestC14(t *testing.T) {
 		c := purityCase{Kind: "purity", Property: "C14", Processes: procs, Relocate: true}
 		hasBad := false
 		for i := 0; i < np; i++ {
-			switch k := gen.Uniform(0, 5).Draw(t, "prog-kind"); k {
+			switch k := gen.Uniform(0, 6).Draw(t, "prog-kind"); k {
+			case 6:
+				// numbered temporaries (multi-assignment), helper variables and loop flags: any counter that survives a call shows here
+				c.Progs = append(c.Progs, c14Prog{Kind: "counters", Main: "main.tsh", Files: map[string]string{"main.tsh": "a, b, c := 1, 2, 3\na, b = b, a\nfor i := 0; i < 2; i++ {\n\tb, c = c, b\n}\nfunc f(x int) int {\n\tp, q := x, 1\n\tp, q = q, p\n\treturn p + q\n}\nprint(a, b, c, f(a))\n"}})
 			case 0, 1:
 				stmts, _ := gen.Stmts(t, gcfg)
 				c.Progs = append(c.Progs, c14Prog{Files: map[string]string{"main.tsh": ts.StmtsString(stmts)}, Main: "main.tsh", Kind: "generated"})
@@ -216,6 +219,14 @@ func TestC14(t *testing.T) {
 					"main.tsh": "import (\n\ta \"a.tsh\"\n\tb \"b.tsh\"\n)\nprint(a.Fa(), b.Fb())\n",
 					"a.tsh":    "import c \"c.tsh\"\nfunc Fa() int {\n\treturn c.Twice(1)\n}\n", "b.tsh": "import c \"c.tsh\"\nfunc Fb() int {\n\treturn c.Twice(2)\n}\n", "c.tsh": c14Other}})
 			case 4:
+				if gen.Uniform(0, 1).Draw(t, "late-failure") == 1 {
+					// a program that is rejected late: the converter has already emitted (and counted) a lot when it fails
+					stmts, _ := gen.Stmts(t, gcfg)
+					late := []string{"la, lb := 1, 2\nla, lb = lb, la\nprint(\"x\" < \"y\")\n", "lq := 1\nswitch lq {\ncase 1:\n\tbreak\n}\n", "ls := []int{1}\nlt := []int{2}\nprint(ls == lt)\n"}[gen.Uniform(0, 2).Draw(t, "late-kind")]
+					c.Progs = append(c.Progs, c14Prog{Files: map[string]string{"main.tsh": ts.StmtsString(stmts) + late}, Main: "main.tsh", Kind: "rejected"})
+					hasBad = true
+					continue
+				}
 				bad := []string{"x := 1 +\n", "print(undefined)\n", "func f() int {\n}\n", "if 1 {\n}\n", "x := \"abc\n", "import q \"missing.tsh\"\n"}[gen.Uniform(0, 5).Draw(t, "bad")]
 				c.Progs = append(c.Progs, c14Prog{Files: map[string]string{"main.tsh": bad}, Main: "main.tsh", Kind: "rejected"})
 				hasBad = true
